@@ -237,6 +237,7 @@ func planC11(g *Gen, tier string) ([]SQLCase, map[string]int, bool) {
 			stats["invalid-options-each"]++
 		}
 	}
+	cases = append(cases, ambiguousColumnLists(stats)...)
 	return cases, stats, true
 }
 
@@ -420,7 +421,40 @@ func planC13(g *Gen, tier string) ([]SQLCase, map[string]int, bool) {
 		cases = append(cases, SQLCase{Kind: "w", Tag: "hostile-statement-names", W: w})
 		stats["hostile-statements"]++
 	}
+	cases = append(cases, ambiguousColumnLists(stats)...)
 	return cases, stats, true
+}
+
+// ambiguousColumnLists: consecutive exports (same process, same table name, dialect and row count) whose column
+// lists are different but read the same once joined with blanks, commas or printed with %v - anything the
+// library keeps between calls and keys by such a text hands the second export the first one's statement
+func ambiguousColumnLists(stats map[string]int) []SQLCase {
+	out := []SQLCase{}
+	groups := [][][]string{
+		{{"a b", "c"}, {"a", "b c"}, {"a b c"}},
+		{{"a,b", "c"}, {"a", "b,c"}},
+		{{"a, b", "c"}, {"a", "b, c"}},
+		{{"x] [y", "z"}, {"x", "y] [z"}},
+		{{"p\"q", "r"}, {"p", "q\"r"}},
+		{{"m|n", "o"}, {"m", "n|o"}},
+	}
+	for _, d := range []string{"sqlite", "postgres", "mysql"} {
+		for gi, grp := range groups {
+			for round := 0; round < 2; round++ {
+				for _, names := range grp {
+					cols := []Col{}
+					for ci, nm := range names {
+						cols = append(cols, Col{Key: BStr(nm), Name: BStr(nm), Data: []Cell{StrCell(fmt.Sprintf("v%d", ci)), StrCell(fmt.Sprintf("w%d", ci))}})
+					}
+					w := &WCase{HasOpt: true, IfExists: "replace", Dialect: BStr(d), Batch: int64(round), TypeMapNil: true, Table: BStr(fmt.Sprintf("amb%d", gi)), Frame: mkFrame(cols...), Entry: "ToSQL"}
+					w.Store = sortStore([]NamedTable{otherTable()})
+					out = append(out, SQLCase{Kind: "w", Tag: "ambiguous-column-lists", W: w})
+					stats["ambiguous-column-lists"]++
+				}
+			}
+		}
+	}
+	return out
 }
 
 var declTypes = []string{"INTEGER", "INT", "BIGINT", "SMALLINT", "TINYINT", "REAL", "FLOAT", "DOUBLE", "NUMERIC", "DOUBLE PRECISION",
